@@ -17,7 +17,13 @@ pub enum Kind {
     /// a word the code masks to 160 bits
     Addr,
     /// keys: true = masked to 160 bits; value_addr: the stored/loaded value is masked to 160 bits
-    Mapping { keys: Vec<bool>, value_addr: bool },
+    /// const_key: the outermost-declared (first hashed) key is this pushed constant instead of call data
+    Mapping {
+        keys: Vec<bool>,
+        value_addr: bool,
+        #[serde(default)]
+        const_key: Option<W>,
+    },
     /// `prefolded`: the element base is pushed as the constant keccak(slot) instead of being hashed at run time
     DynArray { prefolded: bool },
     /// fields (bit offset, bit width), non-overlapping, byte aligned
@@ -115,9 +121,31 @@ pub fn gen_truth(ch: &mut Chooser, max_vars: usize) -> Truth {
                     6 => 3,
                     _ => 4,
                 };
+                let mut keys: Vec<bool> = (0..depth).map(|_| ch.chance(1, 2)).collect();
+                let value_addr = ch.chance(1, 3);
+                // a constant first key (m["admin"], m[7]): text left-aligned in the word, a small number or
+                // any word
+                let const_key = if ch.chance(1, 6) {
+                    keys[0] = false;
+                    Some(match ch.below(4) {
+                        0 | 1 => {
+                            let n = ch.range(1, 32);
+                            let mut bytes = [0u8; 32];
+                            for b in bytes.iter_mut().take(n) {
+                                *b = 0x20 + ch.below(0x5f) as u8;
+                            }
+                            W::from_be_slice(&bytes)
+                        }
+                        2 => W::from_u64(ch.below(300) as u64),
+                        _ => ch.random_word(),
+                    })
+                } else {
+                    None
+                };
                 Kind::Mapping {
-                    keys: (0..depth).map(|_| ch.chance(1, 2)).collect(),
-                    value_addr: ch.chance(1, 3),
+                    keys,
+                    value_addr,
+                    const_key,
                 }
             }
             7 => Kind::DynArray { prefolded: ch.chance(1, 3) },
@@ -166,10 +194,12 @@ fn ret_top(b: &mut B) {
 }
 
 /// leaves keccak(key_d . keccak(... keccak(key_1 . slot))) on the stack
-fn mapping_location(b: &mut B, slot: W, keys: &[bool]) {
+fn mapping_location(b: &mut B, slot: W, keys: &[bool], const_key: &Option<W>) {
     for (i, k) in keys.iter().enumerate() {
         // key
-        if *k && i == 0 && keys.len() % 2 == 1 {
+        if let (0, Some(c)) = (i, const_key) {
+            b.push(*c);
+        } else if *k && i == 0 && keys.len() % 2 == 1 {
             b.emit(asm::CALLER);
         } else {
             arg(b, i, *k);
@@ -217,8 +247,8 @@ fn emit_read(b: &mut B, v: &Var, field: usize) {
             b.emit(asm::AND);
             ret_top(b);
         }
-        Kind::Mapping { keys, value_addr } => {
-            mapping_location(b, v.slot, keys);
+        Kind::Mapping { keys, value_addr, const_key } => {
+            mapping_location(b, v.slot, keys, const_key);
             b.emit(asm::SLOAD);
             if *value_addr {
                 b.push(mask(160));
@@ -266,9 +296,9 @@ fn emit_write(b: &mut B, v: &Var, field: usize) {
             b.emit(asm::SSTORE);
             b.emit(asm::STOP);
         }
-        Kind::Mapping { keys, value_addr } => {
+        Kind::Mapping { keys, value_addr, const_key } => {
             arg(b, keys.len(), *value_addr);
-            mapping_location(b, v.slot, keys);
+            mapping_location(b, v.slot, keys, const_key);
             b.emit(asm::SSTORE);
             b.emit(asm::STOP);
         }
